@@ -41,6 +41,88 @@ theorem frame (hN : Names L E) (f : Nat) (s : St L) (m : ModPath) (hm : GoodName
 theorem unload_clears (s : St L) (m : ModPath) : m ∉ (unload L E s m).mods ∧ Sub L s (unload L E s m) :=
   ⟨unload_not_mem L E s m, unload_sub L E s m⟩
 
+/-- `unload m` of a registered module leaves nothing of `m` in any per-module component of the state: registry, entrypoints
+    (with the node tables and memos they own), symbol table, completed list, memoised identities -/
+theorem unload_resets (s : St L) (m : ModPath) (hm : m ∈ s.mods) : Cleared L (unload L E s m) m :=
+  unload_cleared L E s m hm
+
+/-- … and of an unregistered module does nothing at all (modules.py:133) -/
+theorem unload_noop (s : St L) (m : ModPath) (hm : m ∉ s.mods) : unload L E s m = s :=
+  unload_unregistered L E s m hm
+
+open Tranp.Generated.SessionState in
+/-- The inventory of ALL state of rogw/tranp that can carry history (generated from the sources on every run, verdict per site
+    audited) against the model: a site audited "removed by unload" or "inside an object that a per-module entry owns" names a
+    component in which `unload m` leaves nothing of `m`; a site audited "keyed by content" or "per-call stack" names a component
+    that `unload` does not touch. -/
+theorem inventory_unload (s : St L) (m : ModPath) (hm : m ∈ s.mods) :
+    ∀ x, x ∈ sites →
+      (∀ f, x.verdict = .reset f ∨ x.verdict = .owned f → ClearedAt L f (unload L E s m) m) ∧
+      (∀ f, x.verdict = .content f ∨ x.verdict = .stack f → KeptAt L f s (unload L E s m)) := by
+  have hall : sites.all siteFits = true := by decide +kernel
+  have hc := unload_cleared L E s m hm
+  have hs := unload_sub L E s m
+  intro x hx
+  have hok := List.all_eq_true.1 hall x hx
+  constructor
+  · intro f hf
+    have hmem : f ∈ clearedFields := by
+      rcases hf with h | h <;> simpa [siteFits, h] using hok
+    simp only [clearedFields, List.mem_cons, List.not_mem_nil, or_false] at hmem
+    rcases hmem with h | h | h | h | h <;> subst h
+    · exact hc.mods
+    · exact hc.eps
+    · exact hc.db
+    · exact hc.completed
+    · exact hc.ident
+  · intro f hf
+    have hmem : f ∈ keptFields := by
+      rcases hf with h | h <;> simpa [siteFits, h] using hok
+    simp only [keptFields, List.mem_cons, List.not_mem_nil, or_false] at hmem
+    rcases hmem with h | h | h | h | h <;> subst h
+    · exact hs.mainSrc
+    · exact hs.ast
+    · exact hs.stored
+    · exact hs.deps
+    · exact hs.proc
+
+open Tranp.Generated.SessionState in
+/-- every component of the model state except the symbol files (file system, not an object) is backed by a site of the
+    inventory: the model invents no state -/
+theorem inventory_backed : ∀ f : Field, f ≠ .stored → ∃ x, x ∈ sites ∧ verdictField x.verdict = some f := by
+  intro f hf
+  have h : (sites.any fun x => decide (verdictField x.verdict = some f)) = true := by
+    cases f
+    case stored => exact absurd rfl hf
+    all_goals decide +kernel
+  obtain ⟨x, hx, hv⟩ := List.any_eq_true.1 h
+  exact ⟨x, hx, by simpa using hv⟩
+
+open Tranp.Generated.SessionState in
+/-- what the audit calls constant is written by its constructor only (class-level tables: by nobody); what it calls removed by
+    unload is written by a method named unload / clear; every memoised key lives in a node table an entrypoint owns (or in the
+    self-hosted parser, which the application does not use) -/
+theorem inventory_audit_consistent :
+    (∀ x, x ∈ sites → x.verdict = .constant → ∀ w, w ∈ x.writers → w = initName) ∧
+    (∀ x, x ∈ sites → (∃ f, x.verdict = .reset f) → ∃ w, w ∈ x.writers ∧ w ∈ unloadNames) ∧
+    (∀ x, x ∈ sites → x.kind = .memo → x.verdict = .owned .eps ∨ x.verdict = .offpath) := by
+  have h1 : (sites.all fun x => !decide (x.verdict = .constant) || x.writers.all (fun w => decide (w = initName))) = true := by decide +kernel
+  have h2 : (sites.all fun x => !isReset x.verdict || x.writers.any (fun w => decide (w ∈ unloadNames))) = true := by decide +kernel
+  have h3 : (sites.all fun x => !decide (x.kind = .memo) || (decide (x.verdict = .owned .eps) || decide (x.verdict = .offpath))) = true := by
+    decide +kernel
+  refine ⟨?_, ?_, ?_⟩
+  · intro x hx hv w hw
+    have := List.all_eq_true.1 h1 x hx
+    simp only [hv, decide_true, Bool.not_true, Bool.false_or, List.all_eq_true, decide_eq_true_eq] at this
+    exact this w hw
+  · intro x hx ⟨f, hv⟩
+    have := List.all_eq_true.1 h2 x hx
+    simp only [hv, isReset, Bool.not_true, Bool.false_or, List.any_eq_true, decide_eq_true_eq] at this
+    exact this
+  · intro x hx hk
+    have := List.all_eq_true.1 h3 x hx
+    simpa [hk] using this
+
 /-- the cascade of `unload` never runs out of fuel: any fuel above the number of registered modules gives the same result -/
 theorem unload_fuel (s : St L) (m : ModPath) (k : Nat) : unloadF L E (s.mods.length + k) s m = unload L E s m :=
   unloadF_fuel L E s m k
@@ -277,6 +359,14 @@ theorem namesRetry : Names descLang envRetry :=
   poolNames _ _ _ (by decide) (by decide) (by decide)
 theorem namesUnload : Names descLang envUnload :=
   poolNames _ _ _ (by decide) (by decide) (by decide)
+
+/-- non-vacuity of `unload_resets` / `inventory_unload`: after `transpile app.ab` both modules are registered, with entrypoints,
+    symbols, completed flags and identities (nothing of which is left after `unload app.a`, whose cascade takes `app.ab` too) -/
+example :
+    let s := run descLang envUnload 30 init [.transpile ab]
+    a ∈ s.mods ∧ ab ∈ s.mods ∧ (alookup s.eps a).isSome ∧ a ∈ s.completed ∧ a ∈ s.ident ∧ s.db.any (fun kv => modOf kv.1 == a)
+      ∧ (unload descLang envUnload s a).mods = [] := by
+  decide +kernel
 end Witness
 
 namespace Witness
